@@ -19,7 +19,7 @@ from ..core import Check, jdigest, result_template
 from ..oracles import exacttime as xt
 from ..oracles import kepler
 from ..run import cleanup, fmt_ts, history_digest, parse_ts, read_db, wrap_method
-from .common import drive, generic_shrinks, interleaving_key, raised_in_harness, time_info, variant
+from .common import drive, generic_shrinks, interleaving_key, over, raised_in_harness, time_info, variant
 
 BAND_US = 100            # Julian-date resolution band around a boundary (not on it): either adjacent step
 POS_TOL = 1e-4           # km      (measured max is reported in the evidence)
@@ -552,7 +552,7 @@ class C01(Check):
                         if best is None or score < best[0]:
                             best = (score, dp, dvv, use)
                 _, dp, dvv, use = best
-                if dp > POS_TOL or dvv > VEL_TOL:
+                if over(dp, POS_TOL) or over(dvv, VEL_TOL):
                     why = self._explain(x_prev, t_lo, [my[i] for i in certain + optional], [times[i] for i in certain + optional], t_hi, got)
                     viol.append({"clause": "impulse-effect", "key": why.split(":")[0],
                                  "detail": f"target {tid} step {k} ({t_lo}s -> {t_hi}s): truth is {dp:.3e} km / {dvv:.3e} km/s from rsim's Kepler propagation of the previous truth with "
@@ -615,7 +615,7 @@ class C01(Check):
                     res["tolerances"]["estimate_pred_pos_km"] = [max(t_p[0], dp), EST_POS_TOL]
                     t_v = res["tolerances"].get("estimate_pred_vel_kms", [0.0, EST_VEL_TOL])
                     res["tolerances"]["estimate_pred_vel_kms"] = [max(t_v[0], dvv), EST_VEL_TOL]
-                    if dp > EST_POS_TOL or dvv > EST_VEL_TOL:
+                    if over(dp, EST_POS_TOL) or over(dvv, EST_VEL_TOL):
                         viol.append({"clause": "planned-impulse-estimate-effect", "key": ev["thrust_frame"],
                                      "detail": f"estimate {tid} step {k}: predicted mean is {dp:.3e} km / {dvv:.3e} km/s from the reference with the planned impulse at {ev['start_time']} applied once"})
 
